@@ -73,9 +73,16 @@ def run(res):
                         text=True, env=dict(os.environ, REPO=common.REPO))
     atoms_out = vp.stdout
     if vp.returncode != 0:
-        res.violation('the tableau atoms built by _get_closure / _build_atoms / _Tableu differ from the model buildAtoms '
-                      '(PMC/Model/LTLAtoms.lean, proved equivalent to the declarative tableau): ' + atoms_out[-700:].replace('\n', ' '),
-                      {'validator_output_tail': atoms_out[-3000:]})
+        # closure / processing order / atom multisets are internal: a deviation there is a broken correspondence, and a
+        # failing input only if some ANSWER is wrong too (the answer-level run above, or the validator's own comparison
+        # of modelcheck / _checkE_path_formula answers)
+        answers_wrong = ('differs from _checkE_path_formula' in atoms_out) or ('modelcheck is not the complement' in atoms_out) or ('implementation raised' in atoms_out)
+        res.violation('the tableau internals (_get_closure / cl_list / _build_atoms / _Tableu) differ from the model '
+                      'buildAtoms (PMC/Model/LTLAtoms.lean, proved equivalent to the declarative tableau): '
+                      + atoms_out[-700:].replace('\n', ' '),
+                      {'validator_output_tail': atoms_out[-3000:],
+                       'correspondence': 'PMC.LTL.closure / buildAtoms / checkEBuilt vs _get_closure / _build_atoms / _Tableu'},
+                      no_input=not (answers_wrong or st['disagreements'] > 0))
     res.coverage['atom_level_validation'] = atoms_out[-900:]
     problems = proof_coverage(res, THEOREMS, MODULES)
     for p in problems:
